@@ -193,3 +193,35 @@ def main(pid, fn):
     finally:
         tlc.cleanup()
     sys.exit(rc)
+
+
+def random_walks(graph, rng, n, max_len=200, cover_edges=True, init_filter=None):
+    """Random maximal walks through a TLC state graph; first covers every edge (if asked), then random.
+
+    Yields lists [(action, args, state_dict)] starting with ('Init', (), init_state)."""
+    inits = [s for s in graph.init if init_filter is None or init_filter(graph.states[s])]
+    inits.sort()
+    uncovered = set()
+    if cover_edges:
+        for s, es in graph.edges.items():
+            for i, e in enumerate(es):
+                uncovered.add((s, i))
+    produced = 0
+    while produced < n or (cover_edges and uncovered and produced < 20 * n):
+        s = rng.choice(inits)
+        walk = [('Init', (), graph.states[s])]
+        for _ in range(max_len):
+            es = graph.succ(s)
+            if not es:
+                break
+            idxs = list(range(len(es)))
+            pref = [i for i in idxs if (s, i) in uncovered]
+            i = rng.choice(pref) if pref else rng.choice(idxs)
+            uncovered.discard((s, i))
+            a, args, d = es[i]
+            walk.append((a, args, graph.states[d]))
+            s = d
+        produced += 1
+        yield walk
+        if produced >= n and not uncovered:
+            break
